@@ -170,6 +170,7 @@ def explore(ctx, cfg, sc_dir, idx, budget, dist):
 def run(ctx):
     import extract_consts
     consts = extract_consts.main()
+    case_errors = set()
     n = ctx.scale(60, 1500)
     budget = {"cap": ctx.scale(6000, 30000), "per_level": ctx.scale(0.3, 0.6), "per_model": ctx.scale(0.8, 1.2)}
     sc_dir = common.scratch()
@@ -214,8 +215,13 @@ def run(ctx):
                             "ln_levels": T.tables["ln"], "keyspace": list(T.keyspace.items())[:8],
                             "emitted_distinct": {L: len(E[L][2]) for L in sorted(E) if E[L][1]},
                             "small_max": T.small_max, "keyspace_small": list(T.keyspace_small_cold.items())[:6]})
-        cases.append(coq_case(T, consts))
-        case_cfg.append(cfg)
+        try:
+            cases.append(coq_case(T, consts))
+            case_cfg.append(cfg)
+        except KeyError as e:
+            # a constant the model needs could not be extracted from the changed source: the correspondence cannot be
+            # stated (reported as broken below), the direct oracle above still judges the implementation
+            case_errors.add("constant %s not extracted from the source (see the gen obligation)" % e)
 
     per = 5
     shards = []
@@ -229,7 +235,7 @@ def run(ctx):
         shards.append(("s%04d" % (s // per), "\n".join(src)))
     codes = {1: "trainer table invariants", 2: "calc_omen_keyspace (default bounds)", 3: "calc_omen_keyspace, small cut-off, warm cache",
              4: "calc_omen_keyspace, small cut-off, cold cache", 5: "pcfg_omen_prob.txt"}
-    corr = []
+    corr = [("cases-could-be-stated", False, "; ".join(sorted(case_errors)))] if case_errors else []
     for (name, idx, log), s in zip(common.run_case_shards("C18", shards), range(0, len(cases), per)):
         if idx is None:
             corr.append(("omen-keyspace:" + name, False, log[-1200:]))
